@@ -33,3 +33,31 @@ CONTRACTS.append(Contract(
     ghost={'externals': EXT},
     serves=["C09", "C16"],
     notes="cook_check / getattr / Macro are events of the ghost trace"))
+
+
+# ---------------------------------------------------------------------------------------
+# PageTemplate.include (C16, C09): a whole template used as a macro ("metal:use-macro" whose value
+# is a template object, e.g. `load: layout.pt`) is brought up to date on EVERY use, exactly like a
+# render or a macro lookup -- "renders, on every call, the content its file had at its latest
+# modification"
+# ---------------------------------------------------------------------------------------
+PT = "zpt/template.py::PageTemplate"
+REC_FIELDS[PT] = {"_cooked": "bool"}
+IEXT = {
+    'self.cook_check': {'as': 'cook_check', 'raises_any': True},
+    'self._render': {'as': '_render', 'raises_any': True},
+}
+CONTRACTS.append(Contract(
+    PT + ".include", params={"self": "rec[%s]" % PT, "args": "any", "kwargs": "any"},
+    ensures=[
+        "ext_index('cook_check') == 0 and ext_index('cook_check', 1) == -1",
+        "ext_index('_render') == 1 and ext_index('_render', 1) == -1",
+        # the arguments of the caller (stream, scope, render context, i18n settings) go through as given
+        "ext_call_arg('_render', 0, 0) is args and ext_call_kwarg('_render', 0, '**') is kwargs",
+    ],
+    raises={'*': {'ensures': ["ext_index('cook_check') == 0",
+                              "ext_raised_in('cook_check') or ext_index('_render') == 1"]}},
+    result="none",
+    ghost={'externals': IEXT},
+    serves=["C16", "C09"],
+    notes="cook_check / _render are events of the ghost trace; *args is recorded as the value being spread"))
